@@ -16,7 +16,7 @@
 //                                      suppression exactly as PipeWriter::suppressionToString does             P g=<globsOk of the parsed line> | -
 //   thread                             the propagation loop of ThreadData::check (12 lines repeated here: it lives in a class local
 //                                      to threadexecutor.cpp)                                                 P - | -
-//   wire                               per entry a worker sends (inline || checked): parseLine(toString) + the fields handleRead sets   P - | <suppr>*
+//   wire <skipHash>                    per entry a worker sends (inline || checked): parseLine(toString) + the fields handleRead sets   P - | <suppr>*
 //   ul <file> | ug | ui                getUnmatchedLocal/Global/InlineSuppressions         P pm=<bits> | <suppr>*
 //   report <inline> <k> <file>*k <n> <filter>*n   CppCheckExecutor::reportUnmatchedSuppressions      P pm=<bits>,…;f=<bits> | <polyspace>:<id>:<file>:<line>:<col>*
 #include <string>
@@ -202,9 +202,12 @@ int main() {
                 }
             }
             answer("-", "-", L);
-        } else if (op == "wire") {
+        } else if (op == "wire" && f.size() == 2) {
+            const bool skipHash = f[1] == "1";      // which of the two forms of PipeWriter::writeSuppr the tree has (extracted by the check)
             std::list<S> sent;
             for (const auto& suppr : L.getSuppressions()) {
+                if (skipHash && suppr.hash > 0)
+                    continue;
                 if (!(suppr.isInline || suppr.checked))      // PipeWriter::writeSuppr
                     continue;
                 try {
